@@ -141,6 +141,8 @@ def run(ctx):
             losers = [t for t in erased if t != node]
             if any(t[0] == 'elem' and t[1] == ('list', ()) for t in losers):
                 continue        # infeasible combination: erase loop entered with an empty list
+            if not losers and any(e2.kind == 'loop0' for e2 in p.events):
+                continue        # degenerate: a loop over the combiner's inputs ran zero times
             ok = False
             for t in losers:
                 # elem of [ni for ni in n.all_input_nodes if ni is not winner]
@@ -170,8 +172,12 @@ def run(ctx):
                         for e2 in p.calls():
                             mc2 = method_call(e2.data[0])
                             if mc2 and mc2[1] == 'append' and mc2[2][0] in items:
+                                # tests made earlier in the same iteration (if/continue form)
+                                k2 = p.events.index(e2)
+                                prior = [(x.data[0], x.data[1]) for x in p.events[:k2]
+                                         if x.kind == 'assume']
                                 ok = ok or any(_not_winner(a, v, mc2[2][0], winner)
-                                               for a, v in p.assumptions)
+                                               for a, v in list(p.assumptions) + prior)
             ctx.ob('R03d', 'export_graph erases every losing branch output', ok,
                    'all inputs of the combiner except the winner are erased' if ok else
                    f'the erased set is {[short(t, 100) for t in losers]}: expected every input '
